@@ -310,3 +310,60 @@ pub fn max_limbs(bits: usize) -> Limbs {
     }
     v
 }
+
+/// Exact multiples with structured limbs: for every divisor d of `ds` (d < 2^64) and every assignment of the limbs
+/// above the lowest one from {0, 1, g1, g2} (zero limbs in every position), the lowest limb is SOLVED so that d
+/// divides n exactly. Returns (n, d) together with the neighbours (n+1, d) and (n-1, d).
+pub fn exact_multiples(bits: usize, ds: &[u64]) -> Vec<(Limbs, Limbs)> {
+    let nl = nlimbs(bits);
+    let m = pow2(bits);
+    let mut out = vec![];
+    if nl < 2 {
+        return out;
+    }
+    let g = golden(2);
+    let al = [0u64, 1, g[0], g[1]];
+    let free = (nl - 1).min(5);
+    let combos = 4usize.pow(free as u32);
+    for &d in ds {
+        if d == 0 {
+            continue;
+        }
+        let bd = BigUint::from(d);
+        let dl = to_limbs_n(&bd, nl);
+        for c in 0..combos {
+            let mut l = vec![0u64; nl];
+            let mut cc = c;
+            for i in 0..free {
+                // the free limbs sit at the top, so that long widths keep zero limbs in the middle
+                l[nl - 1 - i] = al[cc % 4];
+                cc /= 4;
+            }
+            l[nl - 1] &= mask(bits);
+            let rest = big(&l);
+            let r = &rest % &bd;
+            let low = if r == BigUint::from(0u32) { BigUint::from(0u32) } else { &bd - r };
+            let n = rest + low;
+            for delta in [0i32, 1, -1] {
+                let x = match delta {
+                    0 => n.clone(),
+                    1 => &n + 1u32,
+                    _ => {
+                        if n == BigUint::from(0u32) {
+                            continue;
+                        }
+                        &n - 1u32
+                    }
+                };
+                if x < m {
+                    out.push((to_limbs(&x, bits), dl.clone()));
+                }
+            }
+        }
+    }
+    out.sort();
+    out.dedup();
+    out
+}
+/// Ordinary-looking one-limb divisors: small odd primes, an odd divisor of 2^64-1, products with powers of two, a 20-bit and a 64-bit prime-like constant.
+pub const ORDINARY_DIVISORS: &[u64] = &[3, 7, 10, 11, 13, 56, 641, 1_000_003, 1_000_003 << 5, 4_294_967_291, 10_000_000_000_000_000_000, 0x9E37_79B9_7F4A_7C15, 0x0101_0101_0101_0101, 7 << 40];
